@@ -50,13 +50,22 @@ class RecWriter:
 
     def field(self, name, field_type='C', size=50, decimal=0):
         self.fields.append(str(name)[:10])
+        self.specs = getattr(self, 'specs', []) + [(str(field_type), int(size))]
 
     def record(self, *values, **named):
         if named:
             rec = [named.get(f) for f in self.fields]
         else:
             rec = list(values) + [None] * (len(self.fields) - len(values))
-        self.records.append(dict(zip(self.fields, rec)))
+        # character values longer than the field are cut (pyshp only warns); numbers that do not fit are lost
+        out = []
+        for v, (ft, size) in zip(rec, self.specs):
+            if v is not None and ft == 'C':
+                v = str(v)[:size]
+            elif v is not None and ft == 'N' and len(str(v)) > size:
+                v = None
+            out.append(v)
+        self.records.append(dict(zip(self.fields, out)))
 
     def shape(self, geo_interface):
         self.shapes.append(geo_interface)
@@ -164,6 +173,68 @@ def body(ctx, conv, shape, bounds, nan_cells=None, mesh_opts=None):
         shutil.rmtree(work, ignore_errors=True)
 
 
+def body_large(ctx, conv):
+    """A grid large enough for long native indexes (three-digit j, two-digit i, multi-kind index): the attribute
+    fields of every record must still identify their cell.  Coordinates are concrete here."""
+    from emsarray.operations import geometry as G
+    from symx import builders
+    nj, ni = 101, 11
+    if conv == 'shoc_standard':
+        ds = builders.shoc_standard(nj, ni, face_x=numpy.zeros((nj, ni)), face_y=numpy.zeros((nj, ni)))
+    else:
+        ds = builders.cf1d(nj, ni)
+    cv = ds.ems
+    N = nj * ni
+    os.makedirs(os.path.join(VERIF, '.work'), exist_ok=True)
+    work = tempfile.mkdtemp(dir=os.path.join(VERIF, '.work'), prefix='c15L-')
+    try:
+        G.write_shapefile(ds, os.path.join(work, 's.shp'))
+        if ctx.symbolic:
+            w = RecWriter.last
+            recs = w.records
+        else:
+            import shapefile
+            rd = shapefile.Reader(os.path.join(work, 's.shp'))
+            fields = [f[0] for f in rd.fields[1:]]
+            recs = [dict(zip(fields, list(r))) for r in rd.records()]
+            rd.close()
+        ctx.check(len(recs) == N, 'one record per cell')
+        bad = []
+        for n, r in enumerate(recs):
+            try:
+                idx = json.loads(r['index'])
+            except Exception:
+                bad.append(n)
+                continue
+            want = json.loads(json.dumps(cv.wind_index(n)))
+            if idx != want or r.get('linear_ind') is None or int(r['linear_ind']) != n or r.get('name') != f'polygon{n}':
+                bad.append(n)
+        ctx.check(not bad, f'Shapefile: every record carries the linear and native index of its cell (also for long indexes); first bad: {bad[:3]}')
+        G.write_geojson(ds, os.path.join(work, 'g.geojson'))
+        if ctx.symbolic:
+            props = [f['properties'] for f in Recorded.dumped]
+        else:
+            props = [f['properties'] for f in json.load(open(os.path.join(work, 'g.geojson')))['features']]
+        ctx.check(len(props) == N and all(p['linear_index'] == n and json.loads(json.dumps(p['index'])) == json.loads(json.dumps(cv.wind_index(n))) for n, p in enumerate(props)),
+                  'GeoJSON: every feature carries the linear and native index of its cell (also for long indexes)')
+    finally:
+        shutil.rmtree(work, ignore_errors=True)
+
+
+def _large_patches():
+    def make():
+        import emsarray.operations.geometry as G
+
+        def dump(obj, f, **kw):
+            Recorded.dumped = [x for x in iter(obj['features'])]
+            f.write('{}')
+        return env.patched(
+            (G, 'json', env.Proxy(json, dict(dump=dump))),
+            (G, 'shapefile', env.Proxy(G.shapefile, dict(Writer=RecWriter))),
+        )
+    return make
+
+
 def check_rows(ctx, P, cv, rows, present, polygons, fmt, jsonish, ring_any_direction=False):
     ctx.check(len(rows) == len(present), f'{fmt}: one feature per cell that has a polygon, none for holes')
     if len(rows) != len(present):
@@ -201,6 +272,8 @@ def cases(tier):
         nm = 'all' if nan_cells is None else len(nan_cells)
         yield Case(f'{conv}:{shape[0]}x{shape[1]}:{bounds}:nan{nm}', body, dict(conv=conv, shape=shape, bounds=bounds, nan_cells=nan_cells),
                    patches=_patches(), max_paths=5000, split=8)
+    for conv in ('shoc_standard', 'cf1d'):
+        yield Case(f'large:{conv}:101x11', body_large, dict(conv=conv), patches=_large_patches(), max_paths=5)
     for mesh in (['tqp'] if q else ['tqp', 'fan', 'tq']):
         for mo in (dict(), dict(start_index=1, fill='attr' if mesh in ('tqp', 'tq') else 'none', supply=('edge_node',))):
             tag = '+'.join(f'{k}={v}' for k, v in mo.items()) or 'default'
